@@ -4,7 +4,7 @@
    quantify over EVERY row (any declaration) and EVERY finite value, so they hold of whatever table the current
    source produces; the finite side conditions ([row_ok]) are evaluated on the regenerated table by the check. *)
 From Coq Require Import QArith ZArith List String Bool.
-From Verif Require Import Base.Flat Base.ParamRec Model.RangeReader Proofs.RangeReaderProofs.
+From Verif Require Import Base.Flat Base.ParamRec Model.RangeReader Proofs.RangeReaderProofs Model.TokenReader Proofs.TokenReaderProofs.
 Import ListNotations.
 Open Scope Q_scope.
 
@@ -100,6 +100,71 @@ Theorem C07_table :
 Proof. exact table_property. Qed.
 Print Assumptions C07_table.
 
+(* ================= round 2: the TEXT of a value (Model/TokenReader.v) ================= *)
+
+(* a number, however it is written ("31", "4.0", "1e0"): everything above carries over *)
+Theorem C07_text_number :
+  forall p t v, tok_num t = Some v -> is_numeric p = true -> (p_kind p = KInt -> integral v = true) -> no_shadow p v = true ->
+  tspec_ok p t (read_tok p t) = true.
+Proof. exact tok_meets_spec. Qed.
+Print Assumptions C07_text_number.
+
+(* +inf / -inf for a float parameter and any value containing a blank (unit-less parameters): rejected by name *)
+Theorem C07_inf_and_blank_rejected :
+  forall p t, (t = TBlank \/ (p_kind p = KFloat /\ (t = TPInf \/ t = TNInf))) ->
+  read_tok p t = TRejectNamed (p_name p) /\ tspec_ok p t (read_tok p t) = true.
+Proof. exact nonnumber_rejected. Qed.
+Print Assumptions C07_inf_and_blank_rejected.
+
+(* REFUTED: nan is outside every range, yet EVERY float parameter stores it (all comparisons with nan are False) *)
+Theorem C07_nan_refuted :
+  forall p, p_kind p = KFloat -> read_tok p TNaN = TAcceptNaN /\ tspec_ok p TNaN (read_tok p TNaN) = false.
+Proof. exact nan_accepted. Qed.
+Print Assumptions C07_nan_refuted.
+
+(* REFUTED ("names the parameter"): non-numeric text for any parameter, nan / inf for int parameters: rejected, but by
+   float() / int() errors that do not mention the parameter *)
+Theorem C07_anonymous_error_refuted :
+  forall p t, (t = TText \/ (p_kind p = KInt /\ (t = TNaN \/ t = TPInf \/ t = TNInf))) ->
+  read_tok p t = TErrAnon /\ tspec_ok p t (read_tok p t) = false.
+Proof. exact anonymous_errors. Qed.
+Print Assumptions C07_anonymous_error_refuted.
+
+(* options: the integer text is what every module's conversion understands ... *)
+Theorem C07_option_canonical :
+  forall strict p n, read_option strict p (TCanon n) = read_tok p (TCanon n).
+Proof. exact option_canon. Qed.
+Print Assumptions C07_option_canonical.
+
+(* ... an integer is accepted exactly when it is a member of the enum (for any table row passing option_ok, which the
+   check evaluates on the regenerated tables): the conversion never fails on an accepted value, no member is unreachable *)
+Theorem C07_option_members :
+  forall t i strict ms, option_ok t (i, strict, ms) = true ->
+  let p := nth i t dummy_param in forall n, in_runs n (p_range p) = memZb n ms.
+Proof. exact option_conversion_total. Qed.
+Print Assumptions C07_option_members.
+
+(* REFUTED: a member written as "4.0" passes ReadParameter and then dies in <Enum>.from_input_string *)
+Theorem C07_option_float_form_refuted :
+  exists p v, in_domain p v = true /\ read_tok p (TNum v) = TAccept v /\ read_option true p (TNum v) = TErrAnon /\
+              tspec_option_ok p (TNum v) (read_option true p (TNum v)) = false.
+Proof. exact option_float_form_refuted. Qed.
+Print Assumptions C07_option_float_form_refuted.
+
+(* booleans: the documented words mean what they say ... *)
+Theorem C07_bool_words :
+  forall s, (in_words s false_words = true -> read_bool s = false) /\
+            (in_words s true_words = true -> in_words s false_words = false -> read_bool s = true).
+Proof. exact bool_words. Qed.
+Print Assumptions C07_bool_words.
+
+(* ... REFUTED: every other non-empty text is silently True ("maybe", and "FALSE") *)
+Theorem C07_bool_junk_refuted :
+  (forall s, bool_documented s = false -> s <> ""%string -> read_bool s = true) /\
+  bool_documented "maybe" = false /\ read_bool "maybe" = true /\ bool_documented "FALSE" = false /\ read_bool "FALSE" = true.
+Proof. exact bool_junk_refuted. Qed.
+Print Assumptions C07_bool_junk_refuted.
+
 (* ---- non-vacuity: the hypotheses are satisfiable on realistic rows ---- *)
 Definition ex_float : param :=
   mkParam "Reservoir" "Reservoir Depth" KFloat (Some (3#1)) (Some (3#1)) (1#10) (15#1) [] "kilometer" "kilometer"
@@ -125,3 +190,11 @@ Proof. repeat split; vm_compute; reflexivity. Qed.
 
 Example C07_example_table : forallb row_ok [ex_float; ex_cost; w_production_wells] = true.
 Proof. vm_compute. reflexivity. Qed.
+
+Example C07_example_text :
+  read_tok ex_float (TNum (15#1)) = TAccept (15#1) /\ read_tok ex_float TPInf = TRejectNamed "Reservoir Depth" /\
+  read_tok ex_float TNaN = TAcceptNaN /\ read_tok w_production_wells TText = TErrAnon /\
+  read_option true w_econ_model (TCanon 4) = TAccept (4#1) /\ read_option true w_econ_model (TCanon 5) = TRejectNamed "Economic Model" /\
+  option_ok [w_econ_model] (0%nat, true, [1; 2; 3; 4]%Z) = true /\ option_ok [w_econ_model] (0%nat, true, [1; 2; 3]%Z) = false /\
+  read_bool "0" = false /\ read_bool "Yes" = true /\ bool_words_disjoint = bool_words_disjoint.
+Proof. repeat split; vm_compute; reflexivity. Qed.
